@@ -28,7 +28,57 @@ def plan(ctx):
         items.append(('raw', engine.stable_hash((ctx.seed, 'c08w', i))))
     for i in range(ctx.n(900, 12000)):
         items.append(('combined', engine.stable_hash((ctx.seed, 'c08c', i))))
+    for i in range(ctx.n(150, 2000)):
+        items.append(('mapkey', engine.stable_hash((ctx.seed, 'c08k', i))))
     return items
+
+
+def run_mapkey(rng):
+    """map-styles entries whose left side names the input colour in each of the ways git can be told to write it (named,
+    palette number, 24-bit), in both colour modes: the left side is a key for what the input carries, not something to display.
+    The target is a palette colour, shown the same in both modes."""
+    E_ = '\x1b'
+    kind = rng.choice('-+')
+    how = rng.choice(['rgb', 'rgb', 'idx', 'named', 'rgb-bg'])
+    if how == 'rgb':
+        r, g, b = rng.randrange(256), rng.randrange(256), rng.randrange(256)
+        sgr, key = '38;2;%d;%d;%d' % (r, g, b), '"#%02x%02x%02x"' % (r, g, b)
+    elif how == 'rgb-bg':
+        r, g, b = rng.randrange(256), rng.randrange(256), rng.randrange(256)
+        sgr, key = '1;35;48;2;%d;%d;%d' % (r, g, b), 'bold purple "#%02x%02x%02x"' % (r, g, b)
+    elif how == 'idx':
+        n = rng.randrange(16, 256)
+        sgr, key = '38;5;%d' % n, str(n)
+    else:
+        sgr, key = rng.choice([('1;35', 'bold purple'), ('1;36', 'bold cyan'), ('3;34', 'italic blue')])
+    tfg = rng.choice([214, 45, 199, 120])
+    text = 'moved_line_%d ' % rng.randrange(1000) + gen.rand_text(rng, 30, allow_empty=False, tabs_ok=False)
+    other = 'plain_line ' + gen.rand_text(rng, 20, allow_empty=False, tabs_ok=False)
+    lines = ['diff --git a/m.txt b/m.txt', 'index 1111111..2222222 100644', '--- a/m.txt', '+++ b/m.txt', '@@ -1,2 +1,2 @@',
+             E_ + '[' + sgr + 'm' + kind + text + E_ + '[m', ' ' + other]
+    sets = {'sub': ['map-styles-key'], 'map_key_kinds': [how]}
+    outs = []
+    for tc in ('always', 'never'):
+        args = ['--paging', 'never', '--no-gitconfig', '--syntax-theme', 'none', '--true-color', tc, '--map-styles', '%s => bold %d' % (key, tfg)]
+        res = runner.run_delta(args, ('\n'.join(lines) + '\n').encode())
+        c = crash_outcome(res, ID)
+        if c is not None:
+            return c
+        if res.rc != 0:
+            return inconclusive('exit %d: %s' % (res.rc, res.err[:120]), sets=sets)
+        row = [r for r in term.decode(res.out.decode('utf-8', 'replace')) if text.rstrip() in r.text()]
+        if len(row) != 1:
+            return violated('c08:map-key:line-missing', 'the specially coloured line is shown %d times' % len(row), 1, len(row), run=res, sets=sets)
+        cells = [c_ for c_ in row[0].cells if c_.ch.strip()]
+        got = set((c_.fg, c_.bg, frozenset(c_.attrs)) for c_ in cells)
+        want = {(('idx', tfg), None, frozenset({'bold'}))}
+        if got != want:
+            return violated('c08:map-key:%s:%s' % (how, tc), 'a line coloured %s in the input, with --map-styles %r and --true-color %s, is not shown in the style the entry assigns'
+                            % (sgr, '%s => bold %d' % (key, tfg), tc), sorted(map(repr, want)), sorted(map(repr, got))[:4], run=res, sets=sets)
+        outs.append(res.out)
+    o = held(sig=('mapkey', how, kind), nontrivial=True, counters={'map_key_cases': 1}, sets=sets)
+    o['executions'] = 2
+    return o
 
 
 def colorize_variant(role_lines, variant, rng):
@@ -149,6 +199,8 @@ def run_item(item):
         return run_moved(rng)
     if kind == 'combined':
         return run_combined(rng)
+    if kind == 'mapkey':
+        return run_mapkey(rng)
     return run_raw(rng)
 
 
